@@ -52,3 +52,20 @@ Fixpoint poly_int (cs : list Q) (k : Z) (a b : Q) : Q :=
   | [] => 0
   | c :: t => c * (Qpower b (k + 1) - Qpower a (k + 1)) / inject_Z (k + 1) + poly_int t (k + 1) a b
   end.
+
+(* ---- StarkFunction (stark.pyx:46-76) and the bin integral add_lorentzian_line obtains from GaussianQuadrature.evaluate
+   (the loop itself is the model of Model/C03_Quadrature.v: rules of increasing order from the flat caches, stopped when
+   two successive rules agree to the relative tolerance) ---- *)
+Require Cherab.Model.C03_Quadrature.
+From Coq Require Import Qabs.
+Section StarkGQ.
+  Variable powQ : Q -> Q -> Q.           (* C pow *)
+  Variable normc : Q.                    (* STARK_NORM_COEFFICIENT *)
+  (* __init__: _a = (0.5 lambda_1_2)**2.5, _norm = (0.5 lambda_1_2)**1.5 / STARK_NORM_COEFFICIENT;
+     evaluate: _norm / (fabs(x - _x0)**2.5 + _a) *)
+  Definition stark_function (lam w x : Q) : Q :=
+    (powQ ((1 # 2) * w) (3 # 2) / normc) / (powQ (Qabs (x - lam)) (5 # 2) + powQ ((1 # 2) * w) (5 # 2)).
+  Variables roots weights : list Q.
+  Definition stark_bin_integral (mn mx : nat) (rtol : Q) (lam w a b : Q) : Q :=
+    C03_Quadrature.gq_evaluate roots weights mn mx rtol (stark_function lam w) a b.
+End StarkGQ.
